@@ -91,8 +91,18 @@ func NewDynUniverse(r *rand.Rand) *DynUniverse {
 		switch kinds[i] {
 		case "dyn":
 			defs["cand"] = map[string]any{"$dynamicAnchor": "node", "const": mk}
+			if r.IntN(4) == 0 {
+				defs["cand"].(map[string]any)["$anchor"] = "plain-alias" // a second, plain name for the same schema object
+			}
 		case "plain":
 			defs["cand"] = map[string]any{"$anchor": "node", "const": mk}
+			if i > 0 && r.IntN(3) == 0 {
+				// the same object ALSO declares a dynamic anchor - of another name: a $dynamicRef written with the plain name
+				// stays an ordinary reference, whatever the dynamic scope holds under that other name
+				defs["cand"].(map[string]any)["$dynamicAnchor"] = "node2"
+				// ... and the OUTERMOST resource declares that other name too (never wanted by anybody)
+				res[0]["$defs"].(map[string]any)["n2"] = map[string]any{"$dynamicAnchor": "node2", "const": "X"}
+			}
 		default:
 			defs["cand"] = map[string]any{"const": mk} // reachable by pointer only
 		}
